@@ -127,7 +127,7 @@ def _gen_mesh(wing_type, nx, ny, symmetry, **kw):
     md = {"num_y": ny, "num_x": nx, "wing_type": wing_type, "symmetry": symmetry}
     md.update(kw)
     out = generate_mesh(md)
-    if wing_type == "CRM":
+    if "CRM" in wing_type:
         mesh, twist_cp = out
     else:
         mesh, twist_cp = out, None
@@ -279,7 +279,7 @@ def _setup(prob, spec, driver=None):
 # ------------------------------------------------------------------------------------------------
 
 
-def _aero_problem(spec, surfaces, flight, geom=True, rotational=False, compressible=False, extra_ivc=None, driver=None):
+def _aero_problem(spec, surfaces, flight, geom=True, rotational=False, compressible=False, extra_ivc=None, driver=None, user_sref=False):
     import openmdao.api as om
     from openaerostruct.geometry.geometry_group import Geometry
     from openaerostruct.aerodynamics.aero_groups import AeroPoint
@@ -288,13 +288,16 @@ def _aero_problem(spec, surfaces, flight, geom=True, rotational=False, compressi
     vals = dict(flight)
     if extra_ivc:
         vals.update(extra_ivc)
+    if user_sref:
+        vals["S_ref_total"] = (400.0, "m**2")
     prob.model.add_subsystem("prob_vars", _flight_ivc(om, vals), promotes=["*"])
     pn = "aero_point_0"
-    prom = [k for k in vals if k in ("v", "alpha", "beta", "Mach_number", "re", "rho", "cg", "omega", "height_agl")]
+    prom = [k for k in vals if k in ("v", "alpha", "beta", "Mach_number", "re", "rho", "cg", "omega", "height_agl", "S_ref_total")]
     for s in surfaces:
         prob.model.add_subsystem(s["name"], Geometry(surface=s))
     prob.model.add_subsystem(
-        pn, AeroPoint(surfaces=surfaces, rotational=rotational, compressible=compressible), promotes_inputs=prom
+        pn, AeroPoint(surfaces=surfaces, rotational=rotational, compressible=compressible, user_specified_Sref=user_sref),
+        promotes_inputs=prom,
     )
     for s in surfaces:
         n = s["name"]
@@ -333,7 +336,7 @@ def _flight_inputs(alpha=(2.0, 8.0), mach=(0.6, 0.86), with_cg=True):
 def z1(spec):
     """AeroPoint, one symmetric CRM surface, viscous + wave drag, every geometry DV."""
     nx, ny = spec.get("nx", 2), spec.get("ny", 5)
-    md, mesh, twist_cp = _gen_mesh("CRM", nx, ny, True, num_twist_cp=3)
+    md, mesh, twist_cp = _gen_mesh(spec.get("wing_type", "CRM"), nx, ny, True, num_twist_cp=3)
     span = _span_of(mesh, True)
     s = _aero_surface(
         "wing",
@@ -358,8 +361,8 @@ def z1(spec):
         cons=[(pn + ".wing_perf.CL", "equals", 0.5)],
         obj=(pn + ".wing_perf.CD", 1e4),
     )
-    prob, pn = _aero_problem(spec, [s], FLIGHT_CRUISE, driver=driver)
-    inputs = _flight_inputs() + [
+    prob, pn = _aero_problem(spec, [s], FLIGHT_CRUISE, driver=driver, user_sref=bool(spec.get("user_sref")))
+    inputs = _flight_inputs() + ([Inp("S_ref_total", 400.0, "rel", -0.2, 0.2)] if spec.get("user_sref") else []) + [
         Inp("wing.twist_cp", twist_cp, "abs", -2.0, 2.0),
         Inp("wing.chord_cp", np.ones(2), "uni", 0.8, 1.2, special=[1.0]),
         Inp("wing.xshear_cp", np.zeros(2), "uni", -0.5, 0.5, special=[0.0]),
@@ -623,6 +626,8 @@ def z6(spec):
     md, mesh, twist_cp = _gen_mesh("CRM", nx, ny, True, num_twist_cp=3)
     s = {"name": "wing", "symmetry": True, "mesh": mesh, "t_over_c_cp": np.array([0.15]), "thickness_cp": np.array([0.05, 0.1, 0.15])}
     s.update(_tube_props(exact_failure_constraint=bool(spec.get("exact", False)), struct_weight_relief=bool(spec.get("relief", False))))
+    if spec.get("radius_cp"):
+        s["radius_cp"] = np.array([0.3, 0.5, 0.7])  # spar radius prescribed instead of derived from t/c and chord
     nyh = mesh.shape[1]
     prob = om.Problem(reports=False)
     ivc = om.IndepVarComp()
@@ -673,6 +678,8 @@ def z6(spec):
         Inp("wing.thickness_cp", np.array([0.05, 0.1, 0.15]), "rel", -0.3, 0.5, special=[0.004, 0.002, 0.5]),
         Inp("wing.geometry.t_over_c_cp", np.array([0.15]), "rel", -0.2, 0.2),
     ]
+    if spec.get("radius_cp"):
+        inputs.append(Inp("wing.tube_group.radius_cp", np.array([0.3, 0.5, 0.7]), "rel", -0.2, 0.3))
     inputs = inputs + extra_in
     of = ["wing.failure", "wing.structural_mass", "wing.vonmises", "wing.disp", "wing.thickness_intersects"] + extra_of
     return Model(spec, prob, inputs, of, [i.name for i in inputs], [s, md], driver=driver)
@@ -1380,6 +1387,7 @@ SURF_OPT_CHOICES = [
     {"c_max_t": 0.4},
     {"CL0": 0.1, "CD0": 0.02},
     {"S_ref_type": "projected", "k_lam": 0.15},
+    {"ref_axis_pos": 0.4},
     {"k_lam": 0.0},  # fully turbulent: admissible, and the laminar/transition terms must drop out cleanly
 ]
 
@@ -1388,6 +1396,8 @@ def variants():
     """Swarm space of specs (zoo entry x discrete options). Mesh size and mode are drawn separately."""
     return [
         {"zoo": "Z1"},
+        {"zoo": "Z1", "user_sref": True},
+        {"zoo": "Z1", "wing_type": "CRM:alpha_2.75"},
         {"zoo": "Z2"},
         {"zoo": "Z3"},
         {"zoo": "Z3", "right": True},
@@ -1400,6 +1410,7 @@ def variants():
         {"zoo": "Z6", "exact": True},
         {"zoo": "Z6", "relief": True},
         {"zoo": "Z6", "extras": True},
+        {"zoo": "Z6", "radius_cp": True},
         {"zoo": "Z7"},
         {"zoo": "Z7", "exact": True},
         {"zoo": "Z8"},
